@@ -5,6 +5,9 @@ C05 — persistence of the agent runtime.
   (`agent/store/mod.rs`: update / remove / clear), `put_value`;
 * `persist_response` (`agent/task/mod.rs`): value / supply lane events and value-store events → `put_value`, map lane
   events and map-store events → `apply_map`, `Synced` → nothing, `store_id = None` (transient item) → nothing;
+* registration of lanes and stores with the write task — in its prologue (items registered during the agent's
+  initialisation phase) and at run time (`TaskMessageResult::AddLane` / `AddStore`: `AgentContext::add_lane` while the
+  agent is running) — which fixes the `store_id` of the item's response stream (`laneStoreId`);
 * the `WriteTaskEvent::Event` arm of `write_task`: `persist_response(&mut store, &response)?` and only then
   `handle_event` (the write-task model of `Model/WriteTask.lean`), producing one log of `Store op | Send frame`
   entries — its position in the log is the global counter; a crash point is a prefix of the log;
@@ -192,22 +195,55 @@ inductive Entry
   | send (r : Nat) (lid : Option Nat) (n : Note)   -- a frame handed to remote `r` (`lid`: the lane it is about)
   deriving DecidableEq, Repr
 
-/-- Items are identified by the id the runtime gave them (lanes: the id used by the write-task model);
-`sid item = none` ⇔ the item is transient (or there is no store). Fixed when the item is registered. -/
+/-- `UplinkKind` of a lane (`WarpLaneKind::uplink_kind`). -/
+inductive UKind | value | supply | map
+  deriving DecidableEq, Repr
+
+/-- What is fixed for an agent instance: the store's `id_for` (`AgentPersistence::store_id(name)`: one id per item
+name, the same across restarts) and whether there is a store at all (`StoreError::NoStoreAvailable` otherwise). -/
 structure Cfg where
-  sid : Nat → Option Nat
+  idFor : Nat → Nat
+  hasStore : Bool := true
+
+/-- The `store_id` a lane's response stream is built with (`LaneEndpoint::into_lane_stream(store_id, ..)`), for a
+lane named `name` registered with `LaneConfig { transient, .. }`:
+
+* `late = false` — the lane was registered in the initialisation phase and arrives in `initial_endpoints`; the
+  prologue of `write_task` computes `if endpoint.transient { None } else { store.store_id(name) }`
+  (`NoStoreAvailable ⇒ None`), whatever the kind of the lane;
+* `late = true` — the lane is registered while the agent runs (`AgentContext::add_lane` →
+  `WriteTaskMessage::Lane` → `handle_task_message` → `Initialization::add_lane`): a non-transient value or map
+  lane is initialised from the store under `store.store_id(name)` and that id comes back in
+  `TaskMessageResult::AddLane(lane, store_id)`; every other lane (transient, or supply) gets `None`. -/
+def laneStoreId (cfg : Cfg) (late : Bool) (name : Nat) (kind : UKind) (transient : Bool) : Option Nat :=
+  if transient then none
+  else if cfg.hasStore then
+    (if late then (match kind with | .supply => none | _ => some (cfg.idFor name)) else some (cfg.idFor name))
+  else none
 
 structure PSt where
   wt : WT.St := {}
   store : StoreState Nat := {}
   log : List Entry := []
-  /-- `persist_response` returned an error: `write_task` has returned (`?`), nothing runs any more -/
+  /-- `persist_response` (or `store_id`) returned an error: `write_task` has returned (`?`), nothing runs any more -/
   failed : Bool := false
+  /-- lane id (`register_lane`) ↦ the `store_id` its `ResponseReceiver` was built with (absent: `None`) -/
+  laneSid : List (Nat × Nat) := []
+  /-- store item id (`item_id_for_store`) ↦ store id -/
+  storeSid : List (Nat × Nat) := []
+  /-- `WriteTaskState::store_counter` -/
+  storeCounter : Nat := 0
 
-/-- One iteration of the `write_task` loop, seen with its persistence side. -/
+/-- One iteration of the `write_task` loop (or of its prologue over the initial endpoints), seen with its
+persistence side. -/
 inductive PEv
   | resp (item : Nat) (d : RespData) (storeOk : Bool)   -- `WriteTaskEvent::Event(response)`; `storeOk`: the store call succeeds
-  | other (e : WT.Ev)                                   -- every other event (a `WT.Ev.event` here is ignored)
+  /-- a lane is registered: `late = false` in the prologue (initial endpoint), `late = true` by
+  `TaskMessageResult::AddLane` at any later moment; `idOk`: `store.store_id(name)` does not fail -/
+  | addLane (late : Bool) (name : Nat) (kind : UKind) (transient : Bool) (reporter : Bool) (idOk : Bool)
+  /-- a store is registered (initial endpoint or `TaskMessageResult::AddStore`) -/
+  | addStore (name : Nat) (idOk : Bool)
+  | other (e : WT.Ev)                                   -- every other event (`event` / `lane` here are ignored)
   deriving Repr
 
 /-- The write that a `WriteDone` for remote `r` completes (a removed remote's write completes as an orphan). -/
@@ -227,30 +263,61 @@ def sentBy (s : WT.St) : WT.Ev → List Entry
     | none => []
   | _ => []
 
+/-- Events of the write-task model that have their own `PEv` form. -/
 def isLaneEvent : WT.Ev → Bool
   | .event _ _ _ => true
+  | .lane _ _ => true
   | _ => false
 
 /-- A write-task step together with the frames it delivers. -/
 def wtStep (s : PSt) (e : WT.Ev) : PSt :=
   { s with wt := (WT.step s.wt e).1, log := s.log ++ sentBy s.wt e }
 
+/-- `ItemResponse.store_id` of a response of item `item`: fixed when its stream was created. Lanes and stores have
+separate id spaces (`register_lane` / `item_id_for_store`); only registered items have a stream. -/
+def PSt.sidOf (s : PSt) (item : Nat) : RespData → Option Nat
+  | .lane _ _ => alGet s.laneSid item
+  | _ => alGet s.storeSid item
+
+def PSt.registered (s : PSt) (item : Nat) : RespData → Bool
+  | .lane _ _ => decide (item < s.wt.reg.length)
+  | _ => decide (item < s.storeCounter)
+
 def pstep (cfg : Cfg) (s : PSt) : PEv → PSt
   | .resp item d storeOk =>
     if s.failed then s else
-    match persistOp (cfg.sid item) d with
-    | some op =>
-      if storeOk then
-        -- `persist_response(..)?` succeeded; then `handle_event`
-        let s1 : PSt := { s with store := applyStore s.store op, log := s.log ++ [.store op] }
+    if s.registered item d then
+      match persistOp (s.sidOf item d) d with
+      | some op =>
+        if storeOk then
+          -- `persist_response(..)?` succeeded; then `handle_event`
+          let s1 : PSt := { s with store := applyStore s.store op, log := s.log ++ [.store op] }
+          match d with
+          | .lane target r => wtStep s1 (.event item target r)
+          | _ => s1
+        else { s with failed := true }
+      | none =>
         match d with
-        | .lane target r => wtStep s1 (.event item target r)
-        | _ => s1
+        | .lane target r => wtStep s (.event item target r)
+        | _ => s
+    else s
+  | .addLane late name kind transient reporter idOk =>
+    if s.failed then s else
+    match laneStoreId cfg late name kind transient with
+    | some sid =>
+      if idOk then
+        -- `into_lane_stream(Some(sid), &mut state)`: `register_lane` gives the lane the next id
+        let s1 : PSt := { s with laneSid := alSet s.laneSid s.wt.reg.length sid }
+        wtStep s1 (.lane name reporter)
+      else { s with failed := true }     -- `Err(err) => return Err(err)` / `StoreInitFailure(Store(err))`
+    | none => wtStep s (.lane name reporter)
+  | .addStore name idOk =>
+    if s.failed then s else
+    if cfg.hasStore then
+      if idOk then
+        { s with storeSid := alSet s.storeSid s.storeCounter (cfg.idFor name), storeCounter := s.storeCounter + 1 }
       else { s with failed := true }
-    | none =>
-      match d with
-      | .lane target r => wtStep s (.event item target r)
-      | _ => s
+    else s                               -- `OpenStoreError::StoresNotSupported`: no endpoint
   | .other e =>
     if s.failed then s
     else if isLaneEvent e then s
